@@ -30,7 +30,7 @@ MANIFEST = {
                  '_compute_site_radius, Transitions.from_trajectory; z3; counter-models replayed natively against a brute-force '
                  'minimum-image oracle; random rotated/triclinic cells as bounded stand-in',
 }
-UNITS = ['unit_integer_remap', 'unit_states_single', 'unit_states_label', 'unit_site_radius', 'unit_from_trajectory']
+UNITS = ['unit_states_two_labels', 'unit_integer_remap', 'unit_states_single', 'unit_states_label', 'unit_site_radius', 'unit_from_trajectory']
 BOUNDED = ['bounded_states', 'bounded_lattice_conformance']
 META = {
     'clauses': {'C02.kd.box': 'P (obligation at search_tree: tree-orientation lattice with the same metric)', 'C02.kd.cutoff': 'P',
@@ -257,25 +257,41 @@ def unit_states_single(tier):
 
 
 def unit_states_label(tier):
-    """Per-label radius {L: r}: the group of sites labelled L is searched and the reported index is the GLOBAL site index."""
+    """Per-label radii {L1: r1} and {L1: r1, L2: r2}: each label group is searched with its own radius and the reported index
+    is the GLOBAL site index; an unvisited group must not stop the remaining labels from being processed."""
     u = Unit('C02.states_label')
     rec = {}
     _install_tree(u, rec)
-    LAB = 'Li1'
+    _label_run(u, rec, ['Li1'])
+    return u
 
+
+def unit_states_two_labels(tier):
+    u = Unit('C02.states_two_labels')
+    rec = {}
+    _install_tree(u, rec)
+    _label_run(u, rec, ['Li1', 'Li2'])
+    return u
+
+
+def _label_run(u, rec, LABS):
     def setup(interp):
         rec.clear()
         ctx = interp.ctx
         traj, sites, st = _traj_sites(interp, rec)
         S = st['S']
         lab = sites.get('_lab')
-        code = z3.Int('code_of_label')
-        g = z3.Int('some_member')
-        ctx.assume(z3.And(g >= 0, g < S, lab(g) == code), tag='requires: the label occurs among the sites')
-        st.update({'lab': lab, 'code': code})
+        codes = [z3.Int(f'code_of_{name}') for name in LABS]
+        radii = [st['r']] + [z3.Real(f'radius_{k}') for k in range(1, len(LABS))]
+        for k, cd in enumerate(codes):
+            g = z3.Int(f'some_member_{k}')
+            ctx.assume(z3.And(g >= 0, g < S, lab(g) == cd), tag='requires: every label of the radius table occurs among the sites')
+            ctx.assume(radii[k] > 0)
+        if len(codes) == 2:
+            ctx.assume(codes[0] != codes[1])
+        st.update({'lab': lab, 'codes': codes, 'radii': radii, 'grps': {}})
         sf = sites.get('_sf')
 
-        # iteration over the Structure yields site objects; enumerate(sites) filtered by label -> the group
         def iterate_hook(i_, v, line):
             if v is sites:
                 return SymIter(S, lambda k: SObj('PeriodicSite', _k=k, frac_coords=STensor((3,), (lambda kk: (lambda c: sf(to_z3(kk), to_z3(c))))(k), 'real'),
@@ -286,24 +302,25 @@ def unit_states_label(tier):
         u.iterate_hook = iterate_hook
 
         def compare_hook(i_, op, a, b, line):
-            if isinstance(a, SObj) and a._cls == 'Label' and b == LAB:
-                return (a.get('code') == code) if op == '==' else (a.get('code') != code)
+            if isinstance(a, SObj) and a._cls == 'Label' and b in LABS:
+                cd = codes[LABS.index(b)]
+                i_.ctx.ghost['cur_label'] = LABS.index(b)
+                return (a.get('code') == cd) if op == '==' else (a.get('code') != cd)
             return NotImplemented
         u.compare_hook = compare_hook
 
         def filter_comprehension(i_, node, gen, it, env):
             """((k, site) for k, site in enumerate(sites) if site.label == label) -> the label group as an ordered selection"""
             from verif.engine.values import SIdx
-            grp = SIdx(i_.ctx, S, lambda x: lab(x) == code, base='group')
-            st['grp'] = grp
+            label = env.get('label', i_)
+            li = LABS.index(label)
+            cd = codes[li]
+            grp = SIdx(i_.ctx, S, lambda x: lab(x) == cd, base=f'group{li}')
+            st['grps'][li] = grp
             seq = SSeq(grp.L, lambda q: (grp.pos(to_z3(q)), it.item(grp.pos(to_z3(q)))[1]))
             return SObj('Unzip', seq=seq, grp=grp)
         u.filter_comprehension = filter_comprehension
-        u.lib['builtins.zip'] = None
-        return [], {'sites': sites, 'trajectory': traj, 'site_radius': {LAB: st['r']}, 'site_inner_fraction': st['f']}, st
-
-    # zip(*grouped): unzip of the symbolic group into (keys, sites)
-    orig_builtin = None
+        return [], {'sites': sites, 'trajectory': traj, 'site_radius': {name: radii[k] for k, name in enumerate(LABS)}, 'site_inner_fraction': st['f']}, st
 
     def patch_interp(interp):
         if getattr(interp, '_c02_patched', False):
@@ -328,23 +345,38 @@ def unit_states_label(tier):
         return setup(interp)
 
     def post(interp, st, res):
-        grp = st.get('grp')
-        if grp is None:
-            return [('label group built', z3.BoolVal(False))]
-        out = _states_post(rec, st, res, key_of=lambda jj: grp.pos(jj))
-        s = rec['searches'][-1]
-        j, c = z3.Ints('cj cc')
+        grps = st.get('grps', {})
+        searches = rec.get('searches', [])
+        out = [('one tree search per label, in table order', z3.BoolVal(len(searches) == len(LABS) and sorted(grps) == list(range(len(LABS)))))]
+        if len(searches) != len(LABS) or sorted(grps) != list(range(len(LABS))):
+            return out
+        T, N, pos = st['T'], st['N'], st['pos']
+        t, a, j = z3.Ints('pt pa pj')
+        lid = st['lat'].get('_id')
         sf = st['sites'].get('_sf')
-        out.append(('search centres are the group members, in order', z3.And(
-            to_z3(s['Cf'].shape[0]) == grp.L,
-            z3.ForAll([j, c], z3.Implies(z3.And(j >= 0, j < grp.L, c >= 0, c < 3), s['Cf'].at(j, c) == sf(grp.pos(j), c))))))
-        out.append(('search radius = radius * inner fraction', s['R'] == st['r'] * st['f']))
+        rng = z3.And(t >= 0, t < T, a >= 0, a < N)
+
+        def d_glob(k):
+            return W.MINDIST(lid, sf(k, 0), sf(k, 1), sf(k, 2), pos(t, a, 0), pos(t, a, 1), pos(t, a, 2))
+        out.append(('shape (T,N)', z3.And(res.shape[0] == T, res.shape[1] == N)))
+        some = []
+        for li in range(len(LABS)):
+            grp, s = grps[li], searches[li]
+            R = s['R']
+            out.append((f'[{LABS[li]}] search radius = its radius * inner fraction', R == st['radii'][li] * st['f']))
+            c = z3.Int('cc')
+            out.append((f'[{LABS[li]}] search centres are the group members, in order', z3.And(
+                to_z3(s['Cf'].shape[0]) == grp.L,
+                z3.ForAll([j, c], z3.Implies(z3.And(j >= 0, j < grp.L, c >= 0, c < 3), s['Cf'].at(j, c) == sf(grp.pos(j), c))))))
+            some.append(z3.Exists([j], z3.And(j >= 0, j < grp.L, res.at(t, a) == grp.pos(j), d_glob(grp.pos(j)) <= R)))
+            out.append((f'[{LABS[li]}] NOSITE => no member strictly within its radius', z3.ForAll([t, a, j], z3.Implies(
+                z3.And(rng, res.at(t, a) == -1, j >= 0, j < grp.L), d_glob(grp.pos(j)) >= R))))
+        out.append(('assigned => global index of a group member within that label\'s radius', z3.ForAll([t, a], z3.Implies(z3.And(rng, res.at(t, a) != -1), z3.Or(*some)))))
         return out
     u.prove_function('gemdat.transitions', '_calculate_atom_states', setup2, post, raises=(),
-                     label='gemdat.transitions._calculate_atom_states[per-label radius]',
+                     label=f'gemdat.transitions._calculate_atom_states[per-label radii: {len(LABS)}]',
                      replay={'fn': 'verif.props.c02:replay_states', 'sizes': lambda st: [st['T'], st['N'], st['S']],
-                             'concretise': lambda model, st, ob: {'labelled': True, 'fallback_seed': 11}})
-    return u
+                             'concretise': lambda model, st, ob: {'labelled': True, 'fallback_seed': 11, 'unvisited_first': True}})
 
 
 def unit_site_radius(tier):
@@ -492,7 +524,13 @@ def replay_states(inputs):
     labels = list(sites.labels)
     f = float(inputs.get('inner_fraction', 1.0))
     if inputs.get('labelled'):
-        radius = {lab: float(r) for lab, r in zip(sorted(set(labels)), [0.9, 1.2, 0.7])}
+        radius = {lab: float(r) for lab, r in zip(sorted(set(labels)), [0.9, 1.2, 0.7, 0.8])}
+        if inputs.get('unvisited_first'):
+            # put the labels nobody comes near first (an unvisited group must not hide the later ones)
+            from verif.native.synth import brute_mindist
+            dmin = brute_mindist(lat.matrix, diff.positions.reshape(-1, 3), sites.frac_coords, rng=3).min(axis=0)
+            far = [lab for lab in radius if all(dmin[k] > radius[lab] + 0.05 for k in range(len(labels)) if labels[k] == lab)]
+            radius = {**{lab: radius[lab] for lab in far}, **{lab: r for lab, r in radius.items() if lab not in far}}
     else:
         radius = {'': float(inputs.get('radius', 1.0))}
     bad = []
@@ -549,8 +587,9 @@ def bounded_states(tier, seed):
                'radius': float(rng.choice([0.6, 1.0, 1.4]))}
         if c % 4 == 1:
             inp['labelled'] = True
-            inp['labels'] = ['A', 'B', 'A', 'A', 'C', 'A'][:5]
-            inp['n_sites'] = 5
+            inp['labels'] = ['A', 'B', 'A', 'A', 'C', 'A', 'D'][:7]
+            inp['n_sites'] = 7
+            inp['unvisited_first'] = True
         if c % 4 == 3:
             inp['auto_radius'] = True
         r = st.guard(replay_states, inp)
